@@ -1,6 +1,7 @@
 //! C20 — chemical-reaction steps conserve energy and keep molecules aligned.
 //! Code: mahf::components::misc::cro::{SynthesisUpdate,OnWallIneffectiveCollisionUpdate,DecompositionUpdate,IntermolecularIneffectiveCollisionUpdate}::execute, Molecule::{new,update_best}, ChemicalReaction, EnergyBuffer
 //! Out: populations above 3; energies above 2^20; two EQUAL individuals in the population (the reactant is located by equality, the statement does not cover duplicates); for the three reactions that split energy with a random factor (x*alpha and x*(1-alpha), two symbolic 64-bit products) conservation up to rounding is NOT decided — only that each part is non-negative and that a rejected reaction changes no energy; synthesis (no random factor) is decided bit-exactly
+//! Out: (tiers) decomposition and the intermolecular collision need 18 min of SAT each and are thorough-tier; the quick tier decides synthesis (3 reactant orders), the on-wall collision and the layout errors
 //! Assume: inductive one-step from an arbitrary consistent CRO state: population of unique tagged individuals with symbolic objective values in [0, 2^20], one molecule per individual with symbolic kinetic energy in [0, 2^20], symbolic buffer in [0, 2^20], stack = [population, reactants, products]
 use mahf::components::misc::cro::{
     ChemicalReaction, DecompositionUpdate, EnergyBuffer, IntermolecularIneffectiveCollisionUpdate, Molecule,
@@ -189,7 +190,7 @@ pub fn h_c20_onwall_0() {
 
 // ---- intermolecular ineffective collision ---------------------------------------------------------------------------------
 
-/// @h tier=quick bound="population 2, reactants (1,0), products 8 and 9, all energies in [0,2^20], all draw sequences within 3 draws" unwind=6 cost=7 mem=10 timeout=1500
+/// @h tier=thorough bound="population 2, reactants (1,0), products 8 and 9, all energies in [0,2^20], all draw sequences within 3 draws" unwind=6 cost=7 mem=10 timeout=3600
 #[cfg_attr(kani, kani::proof)]
 #[cfg_attr(kani, kani::unwind(6))]
 pub fn h_c20_intermolecular() {
@@ -218,7 +219,7 @@ pub fn h_c20_intermolecular() {
 
 // ---- decomposition ------------------------------------------------------------------------------------------------------------
 
-/// @h tier=quick bound="population 2, reactant index 0, products 8 and 9, all energies in [0,2^20], all draw sequences within 5 draws" unwind=8 cost=8 mem=12 timeout=1800
+/// @h tier=thorough bound="population 2, reactant index 0, products 8 and 9, all energies in [0,2^20], all draw sequences within 5 draws" unwind=8 cost=8 mem=12 timeout=3600
 #[cfg_attr(kani, kani::proof)]
 #[cfg_attr(kani, kani::unwind(8))]
 pub fn h_c20_decomposition() {
